@@ -11,8 +11,11 @@
 // The handlers are the only code that reaches the catalogue, the logs and the other connections (A-world), so
 // "no Handled event" is "catalogue, logs and every other connection untouched".
 
+global size_of usize == 8;    // 64-bit target
+
 // --- opaque text (R10) ---
 #[verifier::external_body]
+#[derive(Debug)]
 pub struct Name { s: String }
 impl Name {
     #[verifier::external_body]
@@ -47,12 +50,15 @@ impl vstd::std_specs::convert::FromSpecImpl<IggyError> for ConnectionError {
     open spec fn from_spec(e: IggyError) -> ConnectionError { ConnectionError::SdkError(e) }
 }
 
-// --- the request payload types of the SDK: opaque; each has its own decoder and validator (units codec_* are about those) ---
+// --- the request payload types of the SDK: opaque; each has its own decoder and validator (units codec_* are about those).
+// One macro instead of 45 copies: every line marked external_body / uninterp below is an assumption PER payload type ---
 macro_rules! payload_standin {
-    ($($t:ident),*) => { $( verus! {
+    ($(($t:ident, $code:ident)),*) => { $( verus! {
         #[verifier::external_body]
         pub struct $t { _p: u8 }
         impl $t {
+            // sdk `impl Command for $t { fn code(&self) -> u32 { $code } }` (the constant itself is extracted from sdk/src/command.rs)
+            pub open spec fn code_spec() -> u32 { $code }
             pub uninterp spec fn valid_spec(&self) -> Result<(), IggyError>;
             pub uninterp spec fn decode_payload(b: Seq<u8>) -> Result<$t, IggyError>;
             #[verifier::external_body]
@@ -62,27 +68,263 @@ macro_rules! payload_standin {
         }
     } )* }
 }
-payload_standin!(Ping, GetStats, GetMe, GetClient, GetClients, GetUser, GetUsers, CreateUser, DeleteUser, UpdateUser,
-    UpdatePermissions, ChangePassword, LoginUser, LogoutUser, GetPersonalAccessTokens, CreatePersonalAccessToken,
-    DeletePersonalAccessToken, LoginWithPersonalAccessToken, SendMessages, PollMessages, FlushUnsavedBuffer,
-    GetConsumerOffset, StoreConsumerOffset, DeleteConsumerOffset, GetStream, GetStreams, CreateStream, DeleteStream,
-    UpdateStream, PurgeStream, GetTopic, GetTopics, CreateTopic, DeleteTopic, UpdateTopic, PurgeTopic, CreatePartitions,
-    DeletePartitions, GetConsumerGroup, GetConsumerGroups, CreateConsumerGroup, DeleteConsumerGroup, JoinConsumerGroup,
-    LeaveConsumerGroup, GetSnapshot);
+// (payload type, the command code its SDK `Command::code()` returns)
+payload_standin!(
+    (Ping, PING_CODE),
+    (GetStats, GET_STATS_CODE),
+    (GetMe, GET_ME_CODE),
+    (GetClient, GET_CLIENT_CODE),
+    (GetClients, GET_CLIENTS_CODE),
+    (GetUser, GET_USER_CODE),
+    (GetUsers, GET_USERS_CODE),
+    (CreateUser, CREATE_USER_CODE),
+    (DeleteUser, DELETE_USER_CODE),
+    (UpdateUser, UPDATE_USER_CODE),
+    (UpdatePermissions, UPDATE_PERMISSIONS_CODE),
+    (ChangePassword, CHANGE_PASSWORD_CODE),
+    (LoginUser, LOGIN_USER_CODE),
+    (LogoutUser, LOGOUT_USER_CODE),
+    (GetPersonalAccessTokens, GET_PERSONAL_ACCESS_TOKENS_CODE),
+    (CreatePersonalAccessToken, CREATE_PERSONAL_ACCESS_TOKEN_CODE),
+    (DeletePersonalAccessToken, DELETE_PERSONAL_ACCESS_TOKEN_CODE),
+    (LoginWithPersonalAccessToken, LOGIN_WITH_PERSONAL_ACCESS_TOKEN_CODE),
+    (SendMessages, SEND_MESSAGES_CODE),
+    (PollMessages, POLL_MESSAGES_CODE),
+    (FlushUnsavedBuffer, FLUSH_UNSAVED_BUFFER_CODE),
+    (GetConsumerOffset, GET_CONSUMER_OFFSET_CODE),
+    (StoreConsumerOffset, STORE_CONSUMER_OFFSET_CODE),
+    (DeleteConsumerOffset, DELETE_CONSUMER_OFFSET_CODE),
+    (GetStream, GET_STREAM_CODE),
+    (GetStreams, GET_STREAMS_CODE),
+    (CreateStream, CREATE_STREAM_CODE),
+    (DeleteStream, DELETE_STREAM_CODE),
+    (UpdateStream, UPDATE_STREAM_CODE),
+    (PurgeStream, PURGE_STREAM_CODE),
+    (GetTopic, GET_TOPIC_CODE),
+    (GetTopics, GET_TOPICS_CODE),
+    (CreateTopic, CREATE_TOPIC_CODE),
+    (DeleteTopic, DELETE_TOPIC_CODE),
+    (UpdateTopic, UPDATE_TOPIC_CODE),
+    (PurgeTopic, PURGE_TOPIC_CODE),
+    (CreatePartitions, CREATE_PARTITIONS_CODE),
+    (DeletePartitions, DELETE_PARTITIONS_CODE),
+    (GetConsumerGroup, GET_CONSUMER_GROUP_CODE),
+    (GetConsumerGroups, GET_CONSUMER_GROUPS_CODE),
+    (CreateConsumerGroup, CREATE_CONSUMER_GROUP_CODE),
+    (DeleteConsumerGroup, DELETE_CONSUMER_GROUP_CODE),
+    (JoinConsumerGroup, JOIN_CONSUMER_GROUP_CODE),
+    (LeaveConsumerGroup, LEAVE_CONSUMER_GROUP_CODE),
+    (GetSnapshot, GET_SNAPSHOT_FILE_CODE));
 
-// --- the decoder's and the validator's verdict on a frame (uninterpreted: this unit is about what is DONE with the verdict) ---
+// --- the decoder's and the validator's verdict on a frame ---
+// decode_spec is uninterpreted (this unit is about what is DONE with the decoder's verdict; the decoders are units codec_*).
 pub uninterp spec fn decode_spec(b: Seq<u8>) -> Result<ServerCommand, IggyError>;
-pub uninterp spec fn cmd_valid(c: ServerCommand) -> Result<(), IggyError>;
+// a command is valid iff its payload passes the validate() of its own type (the verdict of that validate() is opaque here);
+// `ServerCommand::validate` is extracted and proved to compute exactly this ([C13.frame.validate.own])
+pub open spec fn cmd_valid(c: ServerCommand) -> Result<(), IggyError> {
+    match c {
+        ServerCommand::Ping(p) => p.valid_spec(),
+        ServerCommand::GetStats(p) => p.valid_spec(),
+        ServerCommand::GetMe(p) => p.valid_spec(),
+        ServerCommand::GetClient(p) => p.valid_spec(),
+        ServerCommand::GetClients(p) => p.valid_spec(),
+        ServerCommand::GetUser(p) => p.valid_spec(),
+        ServerCommand::GetUsers(p) => p.valid_spec(),
+        ServerCommand::CreateUser(p) => p.valid_spec(),
+        ServerCommand::DeleteUser(p) => p.valid_spec(),
+        ServerCommand::UpdateUser(p) => p.valid_spec(),
+        ServerCommand::UpdatePermissions(p) => p.valid_spec(),
+        ServerCommand::ChangePassword(p) => p.valid_spec(),
+        ServerCommand::LoginUser(p) => p.valid_spec(),
+        ServerCommand::LogoutUser(p) => p.valid_spec(),
+        ServerCommand::GetPersonalAccessTokens(p) => p.valid_spec(),
+        ServerCommand::CreatePersonalAccessToken(p) => p.valid_spec(),
+        ServerCommand::DeletePersonalAccessToken(p) => p.valid_spec(),
+        ServerCommand::LoginWithPersonalAccessToken(p) => p.valid_spec(),
+        ServerCommand::SendMessages(p) => p.valid_spec(),
+        ServerCommand::PollMessages(p) => p.valid_spec(),
+        ServerCommand::FlushUnsavedBuffer(p) => p.valid_spec(),
+        ServerCommand::GetConsumerOffset(p) => p.valid_spec(),
+        ServerCommand::StoreConsumerOffset(p) => p.valid_spec(),
+        ServerCommand::DeleteConsumerOffset(p) => p.valid_spec(),
+        ServerCommand::GetStream(p) => p.valid_spec(),
+        ServerCommand::GetStreams(p) => p.valid_spec(),
+        ServerCommand::CreateStream(p) => p.valid_spec(),
+        ServerCommand::DeleteStream(p) => p.valid_spec(),
+        ServerCommand::UpdateStream(p) => p.valid_spec(),
+        ServerCommand::PurgeStream(p) => p.valid_spec(),
+        ServerCommand::GetTopic(p) => p.valid_spec(),
+        ServerCommand::GetTopics(p) => p.valid_spec(),
+        ServerCommand::CreateTopic(p) => p.valid_spec(),
+        ServerCommand::DeleteTopic(p) => p.valid_spec(),
+        ServerCommand::UpdateTopic(p) => p.valid_spec(),
+        ServerCommand::PurgeTopic(p) => p.valid_spec(),
+        ServerCommand::CreatePartitions(p) => p.valid_spec(),
+        ServerCommand::DeletePartitions(p) => p.valid_spec(),
+        ServerCommand::GetConsumerGroup(p) => p.valid_spec(),
+        ServerCommand::GetConsumerGroups(p) => p.valid_spec(),
+        ServerCommand::CreateConsumerGroup(p) => p.valid_spec(),
+        ServerCommand::DeleteConsumerGroup(p) => p.valid_spec(),
+        ServerCommand::JoinConsumerGroup(p) => p.valid_spec(),
+        ServerCommand::LeaveConsumerGroup(p) => p.valid_spec(),
+        ServerCommand::GetSnapshotFile(p) => p.valid_spec(),
+    }
+}
 impl ServerCommand {
     // no precondition: a panic on a malformed buffer ends the connection task = closed connection (allowed)
     #[verifier::external_body]
     pub fn from_bytes(bytes: ByteSeq) -> (r: Result<ServerCommand, IggyError>) ensures r == decode_spec(bytes@) { unimplemented!() }
-    #[verifier::external_body]
-    pub fn validate(&self) -> (r: Result<(), IggyError>) ensures r == cmd_valid(*self) { unimplemented!() }
 }
-// a frame (command code + payload bytes) is a valid request iff it decodes and the decoded command validates
-pub open spec fn valid_request(b: Seq<u8>) -> bool {
-    decode_spec(b) matches Ok(c) && cmd_valid(c) is Ok
+// --- vocabulary of the dispatch clauses on `ServerCommand::from_bytes` (contracts.vspec) ---
+// the command code a frame starts with, and the payload bytes after it
+pub open spec fn frame_code(b: Seq<u8>) -> u32 { un_le32(b.subrange(0, 4)) }
+// the code under which the SDK sends the payload type a variant carries
+pub open spec fn code_of_cmd(c: ServerCommand) -> u32 {
+    match c {
+        ServerCommand::Ping(_) => Ping::code_spec(),
+        ServerCommand::GetStats(_) => GetStats::code_spec(),
+        ServerCommand::GetMe(_) => GetMe::code_spec(),
+        ServerCommand::GetClient(_) => GetClient::code_spec(),
+        ServerCommand::GetClients(_) => GetClients::code_spec(),
+        ServerCommand::GetUser(_) => GetUser::code_spec(),
+        ServerCommand::GetUsers(_) => GetUsers::code_spec(),
+        ServerCommand::CreateUser(_) => CreateUser::code_spec(),
+        ServerCommand::DeleteUser(_) => DeleteUser::code_spec(),
+        ServerCommand::UpdateUser(_) => UpdateUser::code_spec(),
+        ServerCommand::UpdatePermissions(_) => UpdatePermissions::code_spec(),
+        ServerCommand::ChangePassword(_) => ChangePassword::code_spec(),
+        ServerCommand::LoginUser(_) => LoginUser::code_spec(),
+        ServerCommand::LogoutUser(_) => LogoutUser::code_spec(),
+        ServerCommand::GetPersonalAccessTokens(_) => GetPersonalAccessTokens::code_spec(),
+        ServerCommand::CreatePersonalAccessToken(_) => CreatePersonalAccessToken::code_spec(),
+        ServerCommand::DeletePersonalAccessToken(_) => DeletePersonalAccessToken::code_spec(),
+        ServerCommand::LoginWithPersonalAccessToken(_) => LoginWithPersonalAccessToken::code_spec(),
+        ServerCommand::SendMessages(_) => SendMessages::code_spec(),
+        ServerCommand::PollMessages(_) => PollMessages::code_spec(),
+        ServerCommand::FlushUnsavedBuffer(_) => FlushUnsavedBuffer::code_spec(),
+        ServerCommand::GetConsumerOffset(_) => GetConsumerOffset::code_spec(),
+        ServerCommand::StoreConsumerOffset(_) => StoreConsumerOffset::code_spec(),
+        ServerCommand::DeleteConsumerOffset(_) => DeleteConsumerOffset::code_spec(),
+        ServerCommand::GetStream(_) => GetStream::code_spec(),
+        ServerCommand::GetStreams(_) => GetStreams::code_spec(),
+        ServerCommand::CreateStream(_) => CreateStream::code_spec(),
+        ServerCommand::DeleteStream(_) => DeleteStream::code_spec(),
+        ServerCommand::UpdateStream(_) => UpdateStream::code_spec(),
+        ServerCommand::PurgeStream(_) => PurgeStream::code_spec(),
+        ServerCommand::GetTopic(_) => GetTopic::code_spec(),
+        ServerCommand::GetTopics(_) => GetTopics::code_spec(),
+        ServerCommand::CreateTopic(_) => CreateTopic::code_spec(),
+        ServerCommand::DeleteTopic(_) => DeleteTopic::code_spec(),
+        ServerCommand::UpdateTopic(_) => UpdateTopic::code_spec(),
+        ServerCommand::PurgeTopic(_) => PurgeTopic::code_spec(),
+        ServerCommand::CreatePartitions(_) => CreatePartitions::code_spec(),
+        ServerCommand::DeletePartitions(_) => DeletePartitions::code_spec(),
+        ServerCommand::GetConsumerGroup(_) => GetConsumerGroup::code_spec(),
+        ServerCommand::GetConsumerGroups(_) => GetConsumerGroups::code_spec(),
+        ServerCommand::CreateConsumerGroup(_) => CreateConsumerGroup::code_spec(),
+        ServerCommand::DeleteConsumerGroup(_) => DeleteConsumerGroup::code_spec(),
+        ServerCommand::JoinConsumerGroup(_) => JoinConsumerGroup::code_spec(),
+        ServerCommand::LeaveConsumerGroup(_) => LeaveConsumerGroup::code_spec(),
+        ServerCommand::GetSnapshotFile(_) => GetSnapshot::code_spec(),
+    }
+}
+// some SDK command has this code
+pub open spec fn known_code(code: u32) -> bool {
+    code == Ping::code_spec()
+        || code == GetStats::code_spec()
+        || code == GetMe::code_spec()
+        || code == GetClient::code_spec()
+        || code == GetClients::code_spec()
+        || code == GetUser::code_spec()
+        || code == GetUsers::code_spec()
+        || code == CreateUser::code_spec()
+        || code == DeleteUser::code_spec()
+        || code == UpdateUser::code_spec()
+        || code == UpdatePermissions::code_spec()
+        || code == ChangePassword::code_spec()
+        || code == LoginUser::code_spec()
+        || code == LogoutUser::code_spec()
+        || code == GetPersonalAccessTokens::code_spec()
+        || code == CreatePersonalAccessToken::code_spec()
+        || code == DeletePersonalAccessToken::code_spec()
+        || code == LoginWithPersonalAccessToken::code_spec()
+        || code == SendMessages::code_spec()
+        || code == PollMessages::code_spec()
+        || code == FlushUnsavedBuffer::code_spec()
+        || code == GetConsumerOffset::code_spec()
+        || code == StoreConsumerOffset::code_spec()
+        || code == DeleteConsumerOffset::code_spec()
+        || code == GetStream::code_spec()
+        || code == GetStreams::code_spec()
+        || code == CreateStream::code_spec()
+        || code == DeleteStream::code_spec()
+        || code == UpdateStream::code_spec()
+        || code == PurgeStream::code_spec()
+        || code == GetTopic::code_spec()
+        || code == GetTopics::code_spec()
+        || code == CreateTopic::code_spec()
+        || code == DeleteTopic::code_spec()
+        || code == UpdateTopic::code_spec()
+        || code == PurgeTopic::code_spec()
+        || code == CreatePartitions::code_spec()
+        || code == DeletePartitions::code_spec()
+        || code == GetConsumerGroup::code_spec()
+        || code == GetConsumerGroups::code_spec()
+        || code == CreateConsumerGroup::code_spec()
+        || code == DeleteConsumerGroup::code_spec()
+        || code == JoinConsumerGroup::code_spec()
+        || code == LeaveConsumerGroup::code_spec()
+        || code == GetSnapshot::code_spec()
+}
+// the variant's payload is what the decoder of its own type makes of `tail`
+pub open spec fn payload_decoded(c: ServerCommand, tail: Seq<u8>) -> bool {
+    match c {
+        ServerCommand::Ping(p) => Ping::decode_payload(tail) == Ok::<Ping, IggyError>(p),
+        ServerCommand::GetStats(p) => GetStats::decode_payload(tail) == Ok::<GetStats, IggyError>(p),
+        ServerCommand::GetMe(p) => GetMe::decode_payload(tail) == Ok::<GetMe, IggyError>(p),
+        ServerCommand::GetClient(p) => GetClient::decode_payload(tail) == Ok::<GetClient, IggyError>(p),
+        ServerCommand::GetClients(p) => GetClients::decode_payload(tail) == Ok::<GetClients, IggyError>(p),
+        ServerCommand::GetUser(p) => GetUser::decode_payload(tail) == Ok::<GetUser, IggyError>(p),
+        ServerCommand::GetUsers(p) => GetUsers::decode_payload(tail) == Ok::<GetUsers, IggyError>(p),
+        ServerCommand::CreateUser(p) => CreateUser::decode_payload(tail) == Ok::<CreateUser, IggyError>(p),
+        ServerCommand::DeleteUser(p) => DeleteUser::decode_payload(tail) == Ok::<DeleteUser, IggyError>(p),
+        ServerCommand::UpdateUser(p) => UpdateUser::decode_payload(tail) == Ok::<UpdateUser, IggyError>(p),
+        ServerCommand::UpdatePermissions(p) => UpdatePermissions::decode_payload(tail) == Ok::<UpdatePermissions, IggyError>(p),
+        ServerCommand::ChangePassword(p) => ChangePassword::decode_payload(tail) == Ok::<ChangePassword, IggyError>(p),
+        ServerCommand::LoginUser(p) => LoginUser::decode_payload(tail) == Ok::<LoginUser, IggyError>(p),
+        ServerCommand::LogoutUser(p) => LogoutUser::decode_payload(tail) == Ok::<LogoutUser, IggyError>(p),
+        ServerCommand::GetPersonalAccessTokens(p) => GetPersonalAccessTokens::decode_payload(tail) == Ok::<GetPersonalAccessTokens, IggyError>(p),
+        ServerCommand::CreatePersonalAccessToken(p) => CreatePersonalAccessToken::decode_payload(tail) == Ok::<CreatePersonalAccessToken, IggyError>(p),
+        ServerCommand::DeletePersonalAccessToken(p) => DeletePersonalAccessToken::decode_payload(tail) == Ok::<DeletePersonalAccessToken, IggyError>(p),
+        ServerCommand::LoginWithPersonalAccessToken(p) => LoginWithPersonalAccessToken::decode_payload(tail) == Ok::<LoginWithPersonalAccessToken, IggyError>(p),
+        ServerCommand::SendMessages(p) => SendMessages::decode_payload(tail) == Ok::<SendMessages, IggyError>(p),
+        ServerCommand::PollMessages(p) => PollMessages::decode_payload(tail) == Ok::<PollMessages, IggyError>(p),
+        ServerCommand::FlushUnsavedBuffer(p) => FlushUnsavedBuffer::decode_payload(tail) == Ok::<FlushUnsavedBuffer, IggyError>(p),
+        ServerCommand::GetConsumerOffset(p) => GetConsumerOffset::decode_payload(tail) == Ok::<GetConsumerOffset, IggyError>(p),
+        ServerCommand::StoreConsumerOffset(p) => StoreConsumerOffset::decode_payload(tail) == Ok::<StoreConsumerOffset, IggyError>(p),
+        ServerCommand::DeleteConsumerOffset(p) => DeleteConsumerOffset::decode_payload(tail) == Ok::<DeleteConsumerOffset, IggyError>(p),
+        ServerCommand::GetStream(p) => GetStream::decode_payload(tail) == Ok::<GetStream, IggyError>(p),
+        ServerCommand::GetStreams(p) => GetStreams::decode_payload(tail) == Ok::<GetStreams, IggyError>(p),
+        ServerCommand::CreateStream(p) => CreateStream::decode_payload(tail) == Ok::<CreateStream, IggyError>(p),
+        ServerCommand::DeleteStream(p) => DeleteStream::decode_payload(tail) == Ok::<DeleteStream, IggyError>(p),
+        ServerCommand::UpdateStream(p) => UpdateStream::decode_payload(tail) == Ok::<UpdateStream, IggyError>(p),
+        ServerCommand::PurgeStream(p) => PurgeStream::decode_payload(tail) == Ok::<PurgeStream, IggyError>(p),
+        ServerCommand::GetTopic(p) => GetTopic::decode_payload(tail) == Ok::<GetTopic, IggyError>(p),
+        ServerCommand::GetTopics(p) => GetTopics::decode_payload(tail) == Ok::<GetTopics, IggyError>(p),
+        ServerCommand::CreateTopic(p) => CreateTopic::decode_payload(tail) == Ok::<CreateTopic, IggyError>(p),
+        ServerCommand::DeleteTopic(p) => DeleteTopic::decode_payload(tail) == Ok::<DeleteTopic, IggyError>(p),
+        ServerCommand::UpdateTopic(p) => UpdateTopic::decode_payload(tail) == Ok::<UpdateTopic, IggyError>(p),
+        ServerCommand::PurgeTopic(p) => PurgeTopic::decode_payload(tail) == Ok::<PurgeTopic, IggyError>(p),
+        ServerCommand::CreatePartitions(p) => CreatePartitions::decode_payload(tail) == Ok::<CreatePartitions, IggyError>(p),
+        ServerCommand::DeletePartitions(p) => DeletePartitions::decode_payload(tail) == Ok::<DeletePartitions, IggyError>(p),
+        ServerCommand::GetConsumerGroup(p) => GetConsumerGroup::decode_payload(tail) == Ok::<GetConsumerGroup, IggyError>(p),
+        ServerCommand::GetConsumerGroups(p) => GetConsumerGroups::decode_payload(tail) == Ok::<GetConsumerGroups, IggyError>(p),
+        ServerCommand::CreateConsumerGroup(p) => CreateConsumerGroup::decode_payload(tail) == Ok::<CreateConsumerGroup, IggyError>(p),
+        ServerCommand::DeleteConsumerGroup(p) => DeleteConsumerGroup::decode_payload(tail) == Ok::<DeleteConsumerGroup, IggyError>(p),
+        ServerCommand::JoinConsumerGroup(p) => JoinConsumerGroup::decode_payload(tail) == Ok::<JoinConsumerGroup, IggyError>(p),
+        ServerCommand::LeaveConsumerGroup(p) => LeaveConsumerGroup::decode_payload(tail) == Ok::<LeaveConsumerGroup, IggyError>(p),
+        ServerCommand::GetSnapshotFile(p) => GetSnapshot::decode_payload(tail) == Ok::<GetSnapshot, IggyError>(p),
+    }
 }
 
 // --- the ghost history of a connection's wire ---
@@ -108,8 +350,9 @@ pub open spec fn extends(pre: Seq<Event>, post: Seq<Event>) -> bool {
 pub open spec fn no_handled(pre: Seq<Event>, post: Seq<Event>) -> bool {
     forall|j: int| pre.len() <= j < post.len() ==> !(#[trigger] post[j] is Handled)
 }
-pub open spec fn handled_once(pre: Seq<Event>, post: Seq<Event>, c: ServerCommand) -> bool {
-    exists|j: int| pre.len() <= j < post.len() && (#[trigger] post[j] matches Event::Handled(c1, ok) && c1 == c)
+// the command c is handed over at position j of the history, and nowhere else in this step
+pub open spec fn handled_at(pre: Seq<Event>, post: Seq<Event>, j: int, c: ServerCommand) -> bool {
+    pre.len() <= j < post.len() && (post[j] matches Event::Handled(c1, ok) && c1 == c)
         && forall|k: int| pre.len() <= k < post.len() && #[trigger] post[k] is Handled ==> k == j
 }
 // an event that IS a response on the wire: an error response, or a handler that returned Ok (A-handlers)
@@ -120,13 +363,18 @@ pub open spec fn at_most_one_response(pre: Seq<Event>, post: Seq<Event>) -> bool
     forall|j: int, k: int| pre.len() <= j < post.len() && pre.len() <= k < post.len()
         && is_response(#[trigger] post[j]) && is_response(#[trigger] post[k]) ==> j == k
 }
+// the step ends with an error response: it is the last thing that happened on the wire
 pub open spec fn answered_error(pre: Seq<Event>, post: Seq<Event>) -> bool {
-    exists|j: int| pre.len() <= j < post.len() && #[trigger] post[j] is AnsweredError
+    post.len() > pre.len() && post.last() is AnsweredError
+}
+// the step ends with a response (an error response, or the handler's own)
+pub open spec fn answered(pre: Seq<Event>, post: Seq<Event>) -> bool {
+    post.len() > pre.len() && is_response(post.last())
 }
 // the frame a TCP iteration has received: the header read and the body read both succeeded; the frame is the body
 pub open spec fn tcp_frame_received(pre: Seq<Event>, post: Seq<Event>) -> Option<Seq<u8>> {
-    if post.len() >= pre.len() + 2 && post[pre.len() as int] is Received && post[pre.len() + 1] is Received {
-        Some(post[pre.len() + 1]->Received_0)
+    if post.len() >= pre.len() + 2 && post[pre.len() as int] is Received && post[pre.len() as int + 1] is Received {
+        Some(post[pre.len() as int + 1]->Received_0)
     } else {
         None
     }
